@@ -2,6 +2,7 @@ package checks
 
 import (
 	"fmt"
+	"go/types"
 	"math"
 	"regexp"
 	"sort"
@@ -222,36 +223,7 @@ func checkC20(c *Ctx) *report.Result {
 				guards := c.guardsOf(site.At.Block())
 				chain = append(chain, fmt.Sprintf("%s -> %s under %v", fnName(parent), fnName(cur), guards))
 				if parent == clock {
-					ok := false
-					field := ""
-					if len(guards) == 1 {
-						if m := regexp.MustCompile(`^\(\((\w+)\.(\w+) % 95\) == 0\)$`).FindStringSubmatch(guards[0]); m != nil {
-							ok, field = true, "."+m[2]
-						}
-					}
-					r.Ob("P-pace", ok, "sampler call guard in "+fnName(clock), c.pos(site.At), fmt.Sprintf("control dependent on %v; documented: exactly (ticks %% 95) == 0", guards))
-					if ok {
-						// the counter advances by one per clock (away from the wrap)
-						var ts ai.Sym
-						ev := c.evalCall(nil, clock, []ai.Value{ptrTo(withOut)}, nil, func(st *ai.State) {
-							ts = c.symCell(st, withOut, field)
-							cur := c.cellInt(st, withOut, field)
-							st.SetCell(withOut, field, ai.NarrowInt(cur, 1, 4194303))
-						})
-						post := c.cellInt(ev.Post, withOut, field)
-						r.Ob("P-pace", post != nil && post.HasBase && post.Base == ts && post.Off == 1, "tick counter advances by one per clock", firstPos(c, clock), "post value "+ai.ValueString(post))
-						// wrap modulus (evidence only)
-						wrap := []string{}
-						for _, b := range clock.Blocks {
-							if iff, ok := b.Instrs[len(b.Instrs)-1].(*ssa.If); ok {
-								e := exprString(iff.Cond)
-								if strings.Contains(e, field) && strings.Contains(e, ">") {
-									wrap = append(wrap, e)
-								}
-							}
-						}
-						r.Extra["tick_counter_wrap_tests"] = wrap
-					}
+					c.checkPacing(r, clock, cur, withOut, site, guards)
 				} else {
 					r.Ob("P-pace", len(guards) == 0, "call "+fnName(parent)+" -> "+fnName(cur)+" is unconditional", c.pos(site.At), fmt.Sprintf("control dependent on %v", guards))
 				}
@@ -600,4 +572,159 @@ func (c *Ctx) checkAudioWiring(r *report.Result, leftPath, rightPath string) {
 		}
 		r.Ob("P-wire", strings.HasSuffix(evenSrc, lfld) && strings.HasPrefix(evenSrc, "<-") && strings.HasSuffix(oddSrc, rfld) && strings.HasPrefix(oddSrc, "<-") && lfld != rfld && lfld != "", "host callback: even slots <- left queue, odd slots <- right queue", firstPos(c, cb), fmt.Sprintf("slot[i] = %s, slot[i+1] = %s; Left() returns %s, Right() returns %s", evenSrc, oddSrc, lfld, rfld))
 	}
+}
+
+// checkPacing decides "one sample per 95 clocks" from the per-clock routine's transition on its pacing cell - the
+// integer cell of the audio object the sampler call is control dependent on.  Two shapes are decided exactly:
+// (small) the cell cycles through at most a few thousand values: the transition is enumerated value by value from the
+// power-on value and the calls along the cycle must be exactly 95 steps apart; (modulo) the call is guarded by
+// (cell % 95) == 0, the cell advances by one, and at every constant the routine compares the cell with the phase
+// (cell mod 95) continues without a jump.
+func (c *Ctx) checkPacing(r *report.Result, clock, sampler *ssa.Function, audio *ai.Object, site staticCall, guards []string) {
+	it := c.W.It
+	where := c.pos(site.At)
+	// pacing cell: by the path condition of the sampler call
+	cells := map[string]bool{}
+	{
+		st := it.StateOn(c.W.Generic)
+		it.Hooks = ai.Hooks{Call: func(s *ai.State, _ ssa.Instruction, callee *ssa.Function, _ []ai.Value) {
+			if callee != sampler {
+				return
+			}
+			for _, sy := range s.PathDeps {
+				if k := it.Syms[sy].Cell; k.Obj == audio.ID {
+					if _, isInt := ai.LeafTypeAt(audio.T, ai.NormPath(k.Path)).Underlying().(*types.Basic); isInt && c.cellInt(st, audio, ai.NormPath(k.Path)) != nil {
+						cells[ai.NormPath(k.Path)] = true
+					}
+				}
+			}
+		}}
+		restore := c.cutDecoder(nil)
+		it.CallFunction(st, clock, []ai.Value{ptrTo(audio)}, nil)
+		restore()
+		it.Hooks = ai.Hooks{}
+	}
+	if len(cells) != 1 {
+		r.Fail("unresolved", "P-pace", "pacing cell", where, fmt.Sprintf("the sampler call is control dependent on %d integer cells of the audio object %v (want one counter)", len(cells), sortedKeys(cells)))
+		return
+	}
+	field := sortedKeys(cells)[0]
+	w := c.widthOf(audio, field)
+	stepFrom := func(v int64) (next int64, called, ok bool) {
+		ev := c.evalCall(nil, clock, []ai.Value{ptrTo(audio)}, nil, func(st *ai.State) {
+			st.SetCell(audio, field, ai.NewConstInt(w, false, v))
+		})
+		for _, f := range ev.Callees {
+			if f == sampler {
+				called = true
+			}
+		}
+		next, ok = constOf(c.cellInt(ev.Post, audio, field))
+		return next, called, ok && ev.Post != nil
+	}
+	init, initOK := constOf(c.cellInt(it.StateOn(c.W.InitHeap), audio, field))
+	if !initOK {
+		r.Fail("unresolved", "P-pace", "pacing cell "+field, where, "its power-on value is not a constant")
+		return
+	}
+	// (small) enumerate the orbit of the power-on value
+	const cap = 4096
+	seen := map[int64]int{}
+	var calls []int
+	v := init
+	small := false
+	for n := 0; n < cap; n++ {
+		if at, dup := seen[v]; dup {
+			small = true
+			// the orbit closes: calls over [at, n) repeat for ever; spacing across the seam
+			var inCycle []int
+			for _, k := range calls {
+				if k >= at {
+					inCycle = append(inCycle, k)
+				}
+			}
+			ok := len(inCycle) > 0
+			for i := 1; i < len(calls); i++ {
+				ok = ok && calls[i]-calls[i-1] == 95
+			}
+			if len(inCycle) > 0 {
+				seam := (n - inCycle[len(inCycle)-1]) + (inCycle[0] - at)
+				ok = ok && seam == 95
+			}
+			ok = ok && len(calls) > 0 && calls[0]+1 <= 95
+			r.Ob("P-pace", ok, "sampler spacing over the orbit of the pacing counter "+field, where, fmt.Sprintf("orbit of %d values from the power-on value %d; sampler called at steps %v (documented: every 95th clock)", n, init, head(calls, 6)))
+			r.Instances["P-pace"] += n
+			break
+		}
+		seen[v] = n
+		next, called, ok := stepFrom(v)
+		if !ok {
+			r.Fail("undecided", "P-pace", "pacing transition", where, fmt.Sprintf("from %s = %d the per-clock routine leaves no constant value", field, v))
+			return
+		}
+		if called {
+			calls = append(calls, n)
+		}
+		v = next
+	}
+	if small {
+		return
+	}
+	// (modulo) guard shape, +1 away from the compared constants, phase continuity at them
+	okGuard := false
+	if len(guards) == 1 {
+		if m := regexp.MustCompile(`^\(\((\w+)\.(\w+) % 95\) == 0\)$`).FindStringSubmatch(guards[0]); m != nil && "."+m[2] == field {
+			okGuard = true
+		}
+	}
+	r.Ob("P-pace", okGuard, "sampler call guard in "+fnName(clock), where, fmt.Sprintf("control dependent on %v; documented: exactly (%s %% 95) == 0 for a free-running counter", guards, field))
+	if !okGuard {
+		return
+	}
+	// constants the routine compares the counter with
+	var consts []int64
+	for _, b := range clock.Blocks {
+		iff, ok := b.Instrs[len(b.Instrs)-1].(*ssa.If)
+		if !ok {
+			continue
+		}
+		bo, ok := iff.Cond.(*ssa.BinOp)
+		if !ok || !strings.Contains(exprString(bo.X), field) {
+			continue
+		}
+		if k, ok := bo.Y.(*ssa.Const); ok && k.Value != nil && !strings.Contains(exprString(bo.X), "%") {
+			consts = append(consts, k.Int64())
+		}
+	}
+	r.Extra["tick_counter_compared_with"] = consts
+	lo, hi := int64(1), int64(1)<<40
+	for _, k := range consts {
+		if k > init && k < hi {
+			hi = k
+		}
+	}
+	var ts ai.Sym
+	ev := c.evalCall(nil, clock, []ai.Value{ptrTo(audio)}, nil, func(st *ai.State) {
+		ts = c.symCell(st, audio, field)
+		st.SetCell(audio, field, ai.NarrowInt(c.cellInt(st, audio, field), lo, hi-1))
+	})
+	post := c.cellInt(ev.Post, audio, field)
+	r.Ob("P-pace", post != nil && post.HasBase && post.Base == ts && post.Off == 1, "tick counter advances by one per clock", firstPos(c, clock), fmt.Sprintf("for %s in [%d,%d]: post value %s", field, lo, hi-1, ai.ValueString(post)))
+	for _, k := range consts {
+		for _, v := range []int64{k - 1, k, k + 1} {
+			if v < 0 {
+				continue
+			}
+			next, _, ok := stepFrom(v)
+			cont := ok && ((next-(v+1))%95+95)%95 == 0
+			r.Ob("P-pace", cont, fmt.Sprintf("sample phase continues across %s = %d", field, v), firstPos(c, clock), fmt.Sprintf("counter %d -> %d: the phase (counter mod 95) jumps by %d instead of advancing by one, so the gap between two samples there is not 95 clocks", v, next, ((next-(v+1))%95+95)%95))
+		}
+	}
+}
+
+func head(xs []int, n int) []int {
+	if len(xs) > n {
+		return xs[:n]
+	}
+	return xs
 }
